@@ -231,6 +231,28 @@ int main(int argc, char **argv)
         }
         vp::bound("tables_large", "first 13/17/21/24/26 names of a 26-name universe, plain / with ba#100 and a#128/ / with argument specs");
     }
+    // ---- names of special shape in otherwise literal tables: sub-tree ports with several components ("b/c/", "osc/mod/") and one very
+    // long port name next to short ones (the short ones must stay reachable whatever the lookup strategy does with the long one)
+    {
+        static const char *MU[] = {"a", "pan", "b/c/", "osc/mod/", "ab/", "b"};
+        for(uint32_t m = 1; m < 64; ++m) for(int dh = 0; dh < 2; ++dh, ++top) {
+            if(!vp::mine(top)) continue;
+            if(!(m & 0xC)) continue;                                          // at least one multi-component sub-tree
+            std::vector<std::string> names; for(int i = 0; i < 6; ++i) if(m & (1u << i)) names.push_back(MU[i]);
+            std::string tid = "MC|m" + std::to_string(m) + "|d" + std::to_string(dh);
+            if(vp::replaying() && vp::ctx().replay.compare(0, tid.size() + 1, tid + "|") != 0) continue;
+            run_table(make_table(names, 0, dh), tid, false);
+        }
+        for(int L : {100, 300, 600, 900, 1000, 1024, 1100, 1500, 3000}) for(int sub = 0; sub < 2; ++sub) for(int dh = 0; dh < 2; ++dh, ++top) {
+            if(!vp::mine(top)) continue;
+            std::string big(L, 'z'); for(int k = 0; k < L; k += 7) big[k] = (char)('a' + (k / 7) % 26);
+            std::vector<std::string> names = {"volume", sub ? big + "/" : big, "pan", "vol/"};
+            std::string tid = "LONG|L" + std::to_string(L) + "|s" + std::to_string(sub) + "|d" + std::to_string(dh);
+            if(vp::replaying() && vp::ctx().replay.compare(0, tid.size() + 1, tid + "|") != 0) continue;
+            run_table(make_table(names, 0, dh), tid, false);
+        }
+        vp::bound("tables_special_names", "subsets of {a pan b/c/ osc/mod/ ab/ b} with a multi-component sub-tree; {volume, pan, vol/} next to one name of 100..3000 characters (leaf or sub-tree)");
+    }
     // ---- nesting: 2 and 3 levels
     {
         const char *PU[] = {"a", "s/", "ab/", "b"};
